@@ -58,7 +58,7 @@ func listOpsFor(t *pgen.Type) []string {
 
 func containsCustom(t *pgen.Type) bool {
 	return t.Has(func(x *pgen.Type) bool {
-		return x.K == pgen.KNamed && (x.EqualMethod == "custom" || x.CompareMethod == "custom")
+		return x.K == pgen.KNamed && (strings.HasPrefix(x.EqualMethod, "custom") || strings.HasPrefix(x.CompareMethod, "custom"))
 	})
 }
 
